@@ -28,92 +28,198 @@ theorem passes_cons {f : Bool} {t : Tok} {p : List Tok} (h1 : t ≠ .between) (h
     (hp : Passes f p) : Passes f (t :: p) :=
   passes_append (p := [t]) (passes_single h1 h2 h3) hp
 
+/-- Tokens the flag does not look at. -/
+def isPlain : Tok → Bool
+  | .between => false
+  | .kand => false
+  | .band => false
+  | _ => true
+
+theorem pcons {f : Bool} {t : Tok} {p : List Tok} (h : isPlain t = true) (hp : Passes f p) : Passes f (t :: p) := by
+  apply passes_cons _ _ _ hp <;> (intro h'; subst h'; simp [isPlain] at h)
+
+theorem psingle {f : Bool} {t : Tok} (h : isPlain t = true) : Passes f [t] := by
+  simpa using pcons (p := []) h (passes_nil f)
+
 theorem passes_par {f : Bool} {p : List Tok} (w : Bool) (hp : Passes f p) : Passes f (par w p) := by
   cases w with
   | false => exact hp
   | true =>
     rw [par_true]
-    exact passes_cons (by simp) (by simp) (by simp) (passes_append hp (passes_single (by simp) (by simp) (by simp)))
+    exact pcons rfl (passes_append hp (psingle rfl))
 
 theorem passes_prQual (f : Bool) : ∀ qs, Passes f (prQual qs)
   | [] => passes_nil f
-  | _ :: qs => passes_cons (by simp) (by simp) (by simp)
-      (passes_cons (by simp) (by simp) (by simp) (passes_prQual f qs))
+  | _ :: qs => pcons rfl (pcons rfl (passes_prQual f qs))
 
-theorem tokOf_plain {o : BinOp} (h : o ≠ .and) : tokOf o ≠ .between ∧ tokOf o ≠ .kand ∧ tokOf o ≠ .band := by
-  cases o <;> simp_all [tokOf]
+theorem passes_prEnd (f : Bool) : ∀ e, Passes f (prEnd e)
+  | .qn _ qs => pcons rfl (passes_prQual f qs)
+  | .num _ => psingle rfl
+  | .lit _ => psingle rfl
 
-theorem atomTok_plain (a : Atom) : atomTok a ≠ .between ∧ atomTok a ≠ .kand ∧ atomTok a ≠ .band := by
-  cases a <;> simp [atomTok]
+theorem passes_prParamsTail (f : Bool) : ∀ ps, Passes f (prParamsTail ps)
+  | [] => psingle rfl
+  | _ :: ps => pcons rfl (pcons rfl (passes_prParamsTail f ps))
 
+theorem passes_prParams (f : Bool) : ∀ ps, Passes f (prParams ps)
+  | [] => psingle rfl
+  | _ :: ps => pcons rfl (passes_prParamsTail f ps)
+
+theorem tokOf_plain {o : BinOp} (h : o ≠ .and) : isPlain (tokOf o) = true := by
+  cases o <;> simp_all [tokOf, isPlain]
+
+theorem atomTok_plain (a : Atom) : isPlain (atomTok a) = true := by cases a <;> rfl
+theorem startTok_plain (b : Bra) : isPlain (startTok b) = true := by cases b <;> rfl
+theorem endTok_plain (b : Bra) : isPlain (endTok b) = true := by cases b <;> rfl
+theorem cmpTok_plain (c : Cmp) : isPlain (cmpTok c) = true := by cases c <;> rfl
+theorem keyTok_plain (k : Key) : isPlain (keyTok k) = true := by cases k <;> rfl
+theorem quantTok_plain (ev : Bool) : isPlain (quantTok ev) = true := by cases ev <;> rfl
+
+-- Without `and` and `between` inside, the rendering passes under either flag.
 mutual
-/-- Without `and` and `between` inside, the rendering passes under either flag. -/
 theorem passes_noAnd (m : Mode) (f : Bool) : ∀ t : Tree, noAnd t = true → Passes f (pr m t)
   | .atom a, _ => by
     simp only [pr]
-    exact passes_single (atomTok_plain a).1 (atomTok_plain a).2.1 (atomTok_plain a).2.2
+    exact psingle (atomTok_plain a)
   | .bin o l r, h => by
     simp [noAnd] at h
-    have ho := tokOf_plain h.1.1
     simp only [pr]
-    exact passes_append (passes_par _ (passes_noAnd m f l h.1.2))
-      (passes_cons ho.1 ho.2.1 ho.2.2 (passes_par _ (passes_noAnd m f r h.2)))
+    exact passes_append (passes_par _ (passes_noAnd m f l h.1.2)) (pcons (tokOf_plain h.1.1) (passes_par _ (passes_noAnd m f r h.2)))
+  | .between _ _ _, h => by simp [noAnd] at h
   | .neg e, h => by
     simp [noAnd] at h
     simp only [pr]
-    exact passes_cons (by simp) (by simp) (by simp) (passes_par _ (passes_noAnd m f e h))
-  | .between _ _ _, h => by simp [noAnd] at h
+    exact pcons rfl (passes_par _ (passes_noAnd m f e h))
   | .instOf e q qs, h => by
     simp [noAnd] at h
     simp only [pr]
-    exact passes_append (passes_par _ (passes_noAnd m f e h))
-      (passes_cons (by simp) (by simp) (by simp) (passes_cons (by simp) (by simp) (by simp)
-        (passes_cons (by simp) (by simp) (by simp) (passes_prQual f qs))))
+    exact passes_append (passes_par _ (passes_noAnd m f e h)) (pcons rfl (pcons rfl (pcons rfl (passes_prQual f qs))))
   | .path e n, h => by
     simp [noAnd] at h
     simp only [pr]
-    exact passes_append (passes_par _ (passes_noAnd m f e h))
-      (passes_cons (by simp) (by simp) (by simp) (passes_single (by simp) (by simp) (by simp)))
+    exact passes_append (passes_par _ (passes_noAnd m f e h)) (pcons rfl (psingle rfl))
   | .filter e i, h => by
     simp [noAnd] at h
     simp only [pr]
-    exact passes_append (passes_par _ (passes_noAnd m f e h.1))
-      (passes_cons (by simp) (by simp) (by simp)
-        (passes_append (passes_par _ (passes_noAnd m f i h.2)) (passes_single (by simp) (by simp) (by simp))))
+    exact passes_append (passes_par _ (passes_noAnd m f e h.1)) (pcons rfl (passes_append (passes_par _ (passes_noAnd m f i h.2)) (psingle rfl)))
   | .call g as, h => by
     simp [noAnd] at h
     simp only [pr]
-    exact passes_append (passes_par _ (passes_noAnd m f g h.1))
-      (passes_cons (by simp) (by simp) (by simp) (passes_noAndArgs m f as h.2))
-theorem passes_noAndArgs (m : Mode) (f : Bool) : ∀ as : Args, noAndArgs as = true → Passes f (prArgs m as)
+    exact passes_append (passes_par _ (passes_noAnd m f g h.1)) (pcons rfl (passes_noAndArgs m f .rparen rfl as h.2))
+  | .callNamed g n v bs, h => by
+    simp [noAnd] at h
+    simp only [pr]
+    exact passes_append (passes_par _ (passes_noAnd m f g h.1.1)) (pcons rfl (pcons rfl (pcons rfl
+      (passes_append (passes_par _ (passes_noAnd m f v h.1.2)) (passes_noAndBindsTail m f .colon .rparen rfl rfl bs h.2)))))
+  | .inList e a b more, h => by
+    simp [noAnd] at h
+    simp only [pr]
+    exact passes_append (passes_par _ (passes_noAnd m f e h.1.1.1)) (pcons rfl (pcons rfl (passes_append (passes_par _ (passes_noAnd m f a h.1.1.2))
+      (pcons rfl (passes_append (passes_par _ (passes_noAnd m f b h.1.2)) (passes_noAndArgsTail m f .rparen rfl more h.2))))))
+  | .ite c a b, h => by
+    simp [noAnd] at h
+    simp only [pr]
+    exact pcons rfl (passes_append (passes_par _ (passes_noAnd m f c h.1.1)) (pcons rfl (passes_append (passes_par _ (passes_noAnd m f a h.1.2)) (pcons rfl (passes_par _ (passes_noAnd m f b h.2))))))
+  | .forS v d its body, h => by
+    simp [noAnd] at h
+    simp only [pr]
+    exact pcons rfl (pcons rfl (pcons rfl (passes_append (passes_par _ (passes_noAnd m f d h.1.1))
+      (passes_append (passes_noAndItersTail m f its h.1.2) (passes_par _ (passes_noAnd m f body h.2))))))
+  | .forR v lo hi its body, h => by
+    simp [noAnd] at h
+    simp only [pr]
+    exact pcons rfl (pcons rfl (pcons rfl (passes_append (passes_par _ (passes_noAnd m f lo h.1.1.1)) (pcons rfl (passes_append (passes_par _ (passes_noAnd m f hi h.1.1.2))
+      (passes_append (passes_noAndItersTail m f its h.1.2) (passes_par _ (passes_noAnd m f body h.2))))))))
+  | .quant ev v d qs body, h => by
+    simp [noAnd] at h
+    simp only [pr]
+    exact pcons (quantTok_plain ev) (pcons rfl (pcons rfl (passes_append (passes_par _ (passes_noAnd m f d h.1.1))
+      (passes_append (passes_noAndBindsTail m f .kin .ksatisfies rfl rfl qs h.1.2) (passes_par _ (passes_noAnd m f body h.2))))))
+  | .fn ps body, h => by
+    simp [noAnd] at h
+    simp only [pr]
+    exact pcons rfl (pcons rfl (passes_append (passes_prParams f ps) (passes_par _ (passes_noAnd m f body h))))
+  | .list items, h => by
+    simp [noAnd] at h
+    simp only [pr]
+    exact pcons rfl (passes_noAndArgs m f .rbrack rfl items h)
+  | .ctx es, h => by
+    simp [noAnd] at h
+    simp only [pr]
+    exact pcons rfl (passes_noAndEntries m f es h)
+  | .range b1 lo hi b2, _ => by
+    simp only [pr]
+    exact pcons (startTok_plain b1) (passes_append (passes_prEnd f lo)
+      (pcons rfl (passes_append (passes_prEnd f hi) (psingle (endTok_plain b2)))))
+  | .utest c e, _ => by
+    simp only [pr]
+    exact pcons (cmpTok_plain c) (passes_prEnd f e)
+theorem passes_noAndArgs (m : Mode) (f : Bool) (close : Tok) (hc : isPlain close = true) : ∀ as : Args, noAndArgs as = true → Passes f (prArgs m close as)
   | .nil, _ => by
     simp only [prArgs]
-    exact passes_single (by simp) (by simp) (by simp)
+    exact psingle hc
   | .cons a as, h => by
     simp [noAndArgs] at h
     simp only [prArgs]
-    exact passes_append (passes_par _ (passes_noAnd m f a h.1)) (passes_noAndArgsTail m f as h.2)
-theorem passes_noAndArgsTail (m : Mode) (f : Bool) : ∀ as : Args, noAndArgs as = true → Passes f (prArgsTail m as)
+    exact passes_append (passes_par _ (passes_noAnd m f a h.1)) (passes_noAndArgsTail m f close hc as h.2)
+theorem passes_noAndArgsTail (m : Mode) (f : Bool) (close : Tok) (hc : isPlain close = true) : ∀ as : Args, noAndArgs as = true → Passes f (prArgsTail m close as)
   | .nil, _ => by
     simp only [prArgsTail]
-    exact passes_single (by simp) (by simp) (by simp)
+    exact psingle hc
   | .cons a as, h => by
     simp [noAndArgs] at h
     simp only [prArgsTail]
-    exact passes_cons (by simp) (by simp) (by simp)
-      (passes_append (passes_par _ (passes_noAnd m f a h.1)) (passes_noAndArgsTail m f as h.2))
+    exact pcons rfl (passes_append (passes_par _ (passes_noAnd m f a h.1)) (passes_noAndArgsTail m f close hc as h.2))
+theorem passes_noAndBindsTail (m : Mode) (f : Bool) (sep close : Tok) (hs : isPlain sep = true) (hc : isPlain close = true) :
+    ∀ bs : Binds, noAndBinds bs = true → Passes f (prBindsTail m sep close bs)
+  | .nil, _ => by
+    simp only [prBindsTail]
+    exact psingle hc
+  | .cons n v bs, h => by
+    simp [noAndBinds] at h
+    simp only [prBindsTail]
+    exact pcons rfl (pcons rfl (pcons hs (passes_append (passes_par _ (passes_noAnd m f v h.1)) (passes_noAndBindsTail m f sep close hs hc bs h.2))))
+theorem passes_noAndEntries (m : Mode) (f : Bool) : ∀ es : Entries, noAndEntries es = true → Passes f (prEntries m es)
+  | .nil, _ => by
+    simp only [prEntries]
+    exact psingle rfl
+  | .cons k v es, h => by
+    simp [noAndEntries] at h
+    simp only [prEntries]
+    exact pcons (keyTok_plain k) (pcons rfl (passes_append (passes_par _ (passes_noAnd m f v h.1)) (passes_noAndEntriesTail m f es h.2)))
+theorem passes_noAndEntriesTail (m : Mode) (f : Bool) : ∀ es : Entries, noAndEntries es = true → Passes f (prEntriesTail m es)
+  | .nil, _ => by
+    simp only [prEntriesTail]
+    exact psingle rfl
+  | .cons k v es, h => by
+    simp [noAndEntries] at h
+    simp only [prEntriesTail]
+    exact pcons rfl (pcons (keyTok_plain k) (pcons rfl (passes_append (passes_par _ (passes_noAnd m f v h.1)) (passes_noAndEntriesTail m f es h.2))))
+theorem passes_noAndItersTail (m : Mode) (f : Bool) : ∀ its : Iters, noAndIters its = true → Passes f (prItersTail m its)
+  | .nil, _ => by
+    simp only [prItersTail]
+    exact psingle rfl
+  | .single v d its, h => by
+    simp [noAndIters] at h
+    simp only [prItersTail]
+    exact pcons rfl (pcons rfl (pcons rfl (passes_append (passes_par _ (passes_noAnd m f d h.1)) (passes_noAndItersTail m f its h.2))))
+  | .range v lo hi its, h => by
+    simp [noAndIters] at h
+    simp only [prItersTail]
+    exact pcons rfl (pcons rfl (pcons rfl (passes_append (passes_par _ (passes_noAnd m f lo h.1.1)) (pcons rfl
+      (passes_append (passes_par _ (passes_noAnd m f hi h.1.2)) (passes_noAndItersTail m f its h.2))))))
 end
 
 theorem relex_between (ts : List Tok) : relex false (.between :: ts) = .between :: relex true ts := rfl
 theorem relex_band_true (ts : List Tok) : relex true (.band :: ts) = .band :: relex false ts := rfl
 theorem relex_kand_false (ts : List Tok) : relex false (.kand :: ts) = .kand :: relex false ts := rfl
 
+-- A `betweenSafe` tree passes under the clear flag (and leaves it clear).
 mutual
-/-- A `betweenSafe` tree passes under the clear flag (and leaves it clear). -/
 theorem passes_safe (m : Mode) : ∀ t : Tree, betweenSafe t = true → Passes false (pr m t)
   | .atom a, _ => by
     simp only [pr]
-    exact passes_single (atomTok_plain a).1 (atomTok_plain a).2.1 (atomTok_plain a).2.2
+    exact psingle (atomTok_plain a)
   | .bin o l r, h => by
     simp [betweenSafe] at h
     simp only [pr]
@@ -124,12 +230,7 @@ theorem passes_safe (m : Mode) : ∀ t : Tree, betweenSafe t = true → Passes f
       intro rest
       simp only [tokOf, List.cons_append]
       rw [relex_kand_false, hr]
-    · have hp := tokOf_plain ho
-      exact passes_cons hp.1 hp.2.1 hp.2.2 hr
-  | .neg e, h => by
-    simp [betweenSafe] at h
-    simp only [pr]
-    exact passes_cons (by simp) (by simp) (by simp) (passes_par _ (passes_safe m e h))
+    · exact pcons (tokOf_plain ho) hr
   | .between e lo hi, h => by
     simp [betweenSafe] at h
     simp only [pr]
@@ -139,45 +240,128 @@ theorem passes_safe (m : Mode) : ∀ t : Tree, betweenSafe t = true → Passes f
     intro rest
     simp only [List.cons_append, List.append_assoc]
     rw [relex_between, hlo, relex_band_true, hhi]
+  | .neg e, h => by
+    simp [betweenSafe] at h
+    simp only [pr]
+    exact pcons rfl (passes_par _ (passes_safe m e h))
   | .instOf e q qs, h => by
     simp [betweenSafe] at h
     simp only [pr]
-    exact passes_append (passes_par _ (passes_safe m e h))
-      (passes_cons (by simp) (by simp) (by simp) (passes_cons (by simp) (by simp) (by simp)
-        (passes_cons (by simp) (by simp) (by simp) (passes_prQual false qs))))
+    exact passes_append (passes_par _ (passes_safe m e h)) (pcons rfl (pcons rfl (pcons rfl (passes_prQual false qs))))
   | .path e n, h => by
     simp [betweenSafe] at h
     simp only [pr]
-    exact passes_append (passes_par _ (passes_safe m e h))
-      (passes_cons (by simp) (by simp) (by simp) (passes_single (by simp) (by simp) (by simp)))
+    exact passes_append (passes_par _ (passes_safe m e h)) (pcons rfl (psingle rfl))
   | .filter e i, h => by
     simp [betweenSafe] at h
     simp only [pr]
-    exact passes_append (passes_par _ (passes_safe m e h.1))
-      (passes_cons (by simp) (by simp) (by simp)
-        (passes_append (passes_par _ (passes_safe m i h.2)) (passes_single (by simp) (by simp) (by simp))))
+    exact passes_append (passes_par _ (passes_safe m e h.1)) (pcons rfl (passes_append (passes_par _ (passes_safe m i h.2)) (psingle rfl)))
   | .call g as, h => by
     simp [betweenSafe] at h
     simp only [pr]
-    exact passes_append (passes_par _ (passes_safe m g h.1))
-      (passes_cons (by simp) (by simp) (by simp) (passes_safeArgs m as h.2))
-theorem passes_safeArgs (m : Mode) : ∀ as : Args, betweenSafeArgs as = true → Passes false (prArgs m as)
+    exact passes_append (passes_par _ (passes_safe m g h.1)) (pcons rfl (passes_safeArgs m .rparen rfl as h.2))
+  | .callNamed g n v bs, h => by
+    simp [betweenSafe] at h
+    simp only [pr]
+    exact passes_append (passes_par _ (passes_safe m g h.1.1)) (pcons rfl (pcons rfl (pcons rfl
+      (passes_append (passes_par _ (passes_safe m v h.1.2)) (passes_safeBindsTail m .colon .rparen rfl rfl bs h.2)))))
+  | .inList e a b more, h => by
+    simp [betweenSafe] at h
+    simp only [pr]
+    exact passes_append (passes_par _ (passes_safe m e h.1.1.1)) (pcons rfl (pcons rfl (passes_append (passes_par _ (passes_safe m a h.1.1.2))
+      (pcons rfl (passes_append (passes_par _ (passes_safe m b h.1.2)) (passes_safeArgsTail m .rparen rfl more h.2))))))
+  | .ite c a b, h => by
+    simp [betweenSafe] at h
+    simp only [pr]
+    exact pcons rfl (passes_append (passes_par _ (passes_safe m c h.1.1)) (pcons rfl (passes_append (passes_par _ (passes_safe m a h.1.2)) (pcons rfl (passes_par _ (passes_safe m b h.2))))))
+  | .forS v d its body, h => by
+    simp [betweenSafe] at h
+    simp only [pr]
+    exact pcons rfl (pcons rfl (pcons rfl (passes_append (passes_par _ (passes_safe m d h.1.1))
+      (passes_append (passes_safeItersTail m its h.1.2) (passes_par _ (passes_safe m body h.2))))))
+  | .forR v lo hi its body, h => by
+    simp [betweenSafe] at h
+    simp only [pr]
+    exact pcons rfl (pcons rfl (pcons rfl (passes_append (passes_par _ (passes_safe m lo h.1.1.1)) (pcons rfl (passes_append (passes_par _ (passes_safe m hi h.1.1.2))
+      (passes_append (passes_safeItersTail m its h.1.2) (passes_par _ (passes_safe m body h.2))))))))
+  | .quant ev v d qs body, h => by
+    simp [betweenSafe] at h
+    simp only [pr]
+    exact pcons (quantTok_plain ev) (pcons rfl (pcons rfl (passes_append (passes_par _ (passes_safe m d h.1.1))
+      (passes_append (passes_safeBindsTail m .kin .ksatisfies rfl rfl qs h.1.2) (passes_par _ (passes_safe m body h.2))))))
+  | .fn ps body, h => by
+    simp [betweenSafe] at h
+    simp only [pr]
+    exact pcons rfl (pcons rfl (passes_append (passes_prParams false ps) (passes_par _ (passes_safe m body h))))
+  | .list items, h => by
+    simp [betweenSafe] at h
+    simp only [pr]
+    exact pcons rfl (passes_safeArgs m .rbrack rfl items h)
+  | .ctx es, h => by
+    simp [betweenSafe] at h
+    simp only [pr]
+    exact pcons rfl (passes_safeEntries m es h)
+  | .range b1 lo hi b2, _ => by
+    simp only [pr]
+    exact pcons (startTok_plain b1) (passes_append (passes_prEnd false lo)
+      (pcons rfl (passes_append (passes_prEnd false hi) (psingle (endTok_plain b2)))))
+  | .utest c e, _ => by
+    simp only [pr]
+    exact pcons (cmpTok_plain c) (passes_prEnd false e)
+theorem passes_safeArgs (m : Mode) (close : Tok) (hc : isPlain close = true) : ∀ as : Args, betweenSafeArgs as = true → Passes false (prArgs m close as)
   | .nil, _ => by
     simp only [prArgs]
-    exact passes_single (by simp) (by simp) (by simp)
+    exact psingle hc
   | .cons a as, h => by
     simp [betweenSafeArgs] at h
     simp only [prArgs]
-    exact passes_append (passes_par _ (passes_safe m a h.1)) (passes_safeArgsTail m as h.2)
-theorem passes_safeArgsTail (m : Mode) : ∀ as : Args, betweenSafeArgs as = true → Passes false (prArgsTail m as)
+    exact passes_append (passes_par _ (passes_safe m a h.1)) (passes_safeArgsTail m close hc as h.2)
+theorem passes_safeArgsTail (m : Mode) (close : Tok) (hc : isPlain close = true) : ∀ as : Args, betweenSafeArgs as = true → Passes false (prArgsTail m close as)
   | .nil, _ => by
     simp only [prArgsTail]
-    exact passes_single (by simp) (by simp) (by simp)
+    exact psingle hc
   | .cons a as, h => by
     simp [betweenSafeArgs] at h
     simp only [prArgsTail]
-    exact passes_cons (by simp) (by simp) (by simp)
-      (passes_append (passes_par _ (passes_safe m a h.1)) (passes_safeArgsTail m as h.2))
+    exact pcons rfl (passes_append (passes_par _ (passes_safe m a h.1)) (passes_safeArgsTail m close hc as h.2))
+theorem passes_safeBindsTail (m : Mode) (sep close : Tok) (hs : isPlain sep = true) (hc : isPlain close = true) :
+    ∀ bs : Binds, betweenSafeBinds bs = true → Passes false (prBindsTail m sep close bs)
+  | .nil, _ => by
+    simp only [prBindsTail]
+    exact psingle hc
+  | .cons n v bs, h => by
+    simp [betweenSafeBinds] at h
+    simp only [prBindsTail]
+    exact pcons rfl (pcons rfl (pcons hs (passes_append (passes_par _ (passes_safe m v h.1)) (passes_safeBindsTail m sep close hs hc bs h.2))))
+theorem passes_safeEntries (m : Mode) : ∀ es : Entries, betweenSafeEntries es = true → Passes false (prEntries m es)
+  | .nil, _ => by
+    simp only [prEntries]
+    exact psingle rfl
+  | .cons k v es, h => by
+    simp [betweenSafeEntries] at h
+    simp only [prEntries]
+    exact pcons (keyTok_plain k) (pcons rfl (passes_append (passes_par _ (passes_safe m v h.1)) (passes_safeEntriesTail m es h.2)))
+theorem passes_safeEntriesTail (m : Mode) : ∀ es : Entries, betweenSafeEntries es = true → Passes false (prEntriesTail m es)
+  | .nil, _ => by
+    simp only [prEntriesTail]
+    exact psingle rfl
+  | .cons k v es, h => by
+    simp [betweenSafeEntries] at h
+    simp only [prEntriesTail]
+    exact pcons rfl (pcons (keyTok_plain k) (pcons rfl (passes_append (passes_par _ (passes_safe m v h.1)) (passes_safeEntriesTail m es h.2))))
+theorem passes_safeItersTail (m : Mode) : ∀ its : Iters, betweenSafeIters its = true → Passes false (prItersTail m its)
+  | .nil, _ => by
+    simp only [prItersTail]
+    exact psingle rfl
+  | .single v d its, h => by
+    simp [betweenSafeIters] at h
+    simp only [prItersTail]
+    exact pcons rfl (pcons rfl (pcons rfl (passes_append (passes_par _ (passes_safe m d h.1)) (passes_safeItersTail m its h.2))))
+  | .range v lo hi its, h => by
+    simp [betweenSafeIters] at h
+    simp only [prItersTail]
+    exact pcons rfl (pcons rfl (pcons rfl (passes_append (passes_par _ (passes_safe m lo h.1.1)) (pcons rfl
+      (passes_append (passes_par _ (passes_safe m hi h.1.2)) (passes_safeItersTail m its h.2))))))
 end
 
 /-- The lexer's flag reproduces the printed tokens of a `betweenSafe` tree. -/
